@@ -704,3 +704,28 @@ def check_no_use_after_release(ctx, unit, fns, rule="O7.no-use-after-release"):
             flow.run(f, ["live"], transfer, None)
             ctx.inst(rule, "%s: release #%d of %s" % (f.sig, i + 1, name), not bad, call.loc,
                      "; ".join(sorted(set(bad))) if bad else "no access through the pointer after its release", f)
+
+
+# ---- W2: type-level witnesses -----------------------------------------------------------------------
+
+def check_typelevel(ctx, rule, prefix, minimum, unit="typelevel"):
+    """static_asserts of tu/typelevel.cpp whose message starts with `prefix`: each is one instance,
+    decided by the compiler's constant evaluator on /repo's current types."""
+    from .ir import load_unit
+    u = load_unit(unit, extra_flags=("-fconstexpr-steps=200000000",))
+    ctx.use_unit(u)
+    other = [e for e in u.diagnostics if e["level"] == "error" and "static_assert" not in e["text"]
+             and "static assertion" not in e["text"]]
+    if other:
+        raise AnalysisBroken("type-level witness unit does not compile: %s" % "; ".join(
+            "%s:%s: %s" % (e["file"], e["line"], e["text"]) for e in other[:3]))
+    n = 0
+    for sa in u.d.get("static_asserts", []):
+        msg = sa.get("msg", "")
+        if not msg.startswith(prefix):
+            continue
+        n += 1
+        ok = (not sa["failed"]) and sa["evaluated"] and sa["value"]
+        ctx.inst(rule, msg, ok, sa["loc"], "static_assert %s" % ("holds" if ok else "FAILS on the current tree"))
+    if n < minimum:
+        raise AnalysisBroken("type-level witnesses with prefix %r: found %d, expected at least %d" % (prefix, n, minimum))
